@@ -21,7 +21,7 @@ THEOREMS = [
     "log_replay_txn", "rewrite_preserves_replay", "reopen_refines_partial",
     "reopen_fails_view_witness", "drop_after_compaction_reopens", "reopen_refines_full_unsound",
     "reopen_idempotent", "reopen_cycles", "ids_fresh_after_reopen_partial", "ids_fresh_full",
-    "no_stale_dv_hides_new_rows", "dv_file_reuse_witness",
+    "no_stale_dv_hides_new_rows", "dv_file_reuse_regression",
     "history_reaches_invariant", "reopen_refines", "reopen_accepts_ops",
 ]
 WEIGHTS = {"insert": 28, "delete": 14, "compact": 9, "vacuum": 4, "reopen": 17, "create": 10, "drop": 8,
@@ -60,7 +60,7 @@ def witnesses():
         sg.make_hist(900001, o, NAMES, w_panic, expect_sig="reopen:view-shifts-table-id"),
         sg.make_hist(900002, o, NAMES, w_swap, expect_sig="reopen:view-shifts-table-id"),
         sg.make_hist(900003, o, NAMES, w_dv),      # former finding reopen:stale-dv-of-dropped-table (fixed 5071ff5): must simply agree
-        sg.make_hist(900006, o, NAMES, w_file, expect_sig="delete:dv-file-reused-after-reopen"),
+        sg.make_hist(900006, o, NAMES, w_file),    # former finding delete:dv-file-reused-after-reopen: regression
         sg.make_hist(900004, o, NAMES, w_view, expect_sig="reopen:view-not-persisted"),
         sg.make_hist(900005, o, NAMES, w_idx, expect_sig="reopen:view-shifts-table-id"),
     ]
